@@ -689,7 +689,7 @@ const (
 	pollEvery   = 200 * time.Microsecond
 	stallBefore = 5 * time.Millisecond // scripts made no progress for this long: start the cleanup
 	reissueIdle = 1 * time.Millisecond
-	stuckAfter  = 3 * time.Second // no call returned for this long after the cleanup action: stuck
+	stuckAfter  = 8 * time.Second // no call returned for this long after the cleanup action: stuck
 )
 
 // phase performs one cleanup action on both ends and waits for all script goroutines.
